@@ -1,8 +1,8 @@
 PROP = dict(
-    level="exhaustive-bounded",
+    level="exploration",
     exhaustive=True,
     technique="enumerative in-package differential test against an independent ownership model (fnv partition, published jump hash, id-sorted ring) + rapid-generated ids",
-    level_text="For every subset (up to 5 nodes quick / 8 thorough) of a 9-id alphabet, every join order (all permutations up to 6 nodes, a fixed 1/97 sample "
+    level_text="Exhaustive within the stated bounds, exploration beyond. For every subset (up to 5 nodes quick / 8 thorough) of a 9-id alphabet, every join order (all permutations up to 6 nodes, a fixed 1/97 sample "
                "plus identity and reversal above), replica counts 0..6 (0..9 thorough) and all 256 partitions, cluster objects built through addNodeBasicSorted, "
                "addNode and a non-coordinator's mergeClusterStatus, with different self nodes and URIs ordered unlike the ids, must yield exactly the owner list of the model: "
                "min(max(r,1),n) distinct members, the ring successors of sortedIDs[jump(partition,n)]. shardNodes/ShardNodes/ownsShard/containsShards/"
@@ -15,7 +15,7 @@ PROP = dict(
          "or replicas = 0, or replicas > nodes (clamp).",
     assumptions=["replicas in 0..9 (negative values are outside the configuration domain)",
                  "node ids are distinct non-empty strings; ordering of ids is Go byte order (the order sort.Sort(byID) uses and all nodes share)"],
-    tags=[],
+    tags=["gx"],
     units=[
         U("enum", ".", "^TestVerifC20_Enum$", 0, 0, sq=6, sth=14, rapid=False, timeout={"quick": 300, "thorough": 1500}),
         U("random", ".", "^TestVerifC20_Random$", 400, 20000, sq=2, sth=2),
